@@ -5,6 +5,13 @@ def pbt(harness, variant="asan", libs=("rapidcheck",), quick=None, thorough=None
     d.update(kw)
     return d
 
+def fuzz(harness, variant="fuzz", libs=(), quick=None, thorough=None, **kw):
+    d = dict(type="fuzz", harness=harness, variant=variant, libs=list(libs), quick=quick, thorough=thorough)
+    d.update(kw)
+    return d
+
+
+
 PROPS = {}
 NOT_APPLICABLE = {}
 HOOK_COMMITS = ["b0288d2"]
@@ -80,12 +87,6 @@ PROPS["C07"] = dict(
                  quick=dict(cases=60, size=60, procs=6), thorough=dict(cases=1200, size=100, procs=8))],
     min_evaluations=dict(quick=600, thorough=15000),
 )
-
-def fuzz(harness, variant="fuzz", libs=(), quick=None, thorough=None, **kw):
-    d = dict(type="fuzz", harness=harness, variant=variant, libs=list(libs), quick=quick, thorough=thorough)
-    d.update(kw)
-    return d
-
 
 def _c08_fuzz_args(runs, with_seeds=True):
     a = ["--family={i}", "--out={out}", "-seed={seed}", "-runs=%d" % runs, "-max_len=4096", "-timeout=25", "-rss_limit_mb=4096",
@@ -348,6 +349,42 @@ PROPS["C01"] = dict(
     engines=[pbt("c01_roundtrip", libs=_W_LIBS, only="roundtrip", quick=dict(cases=500, size=60, procs=8), thorough=dict(cases=15000, size=100, procs=16))],
     min_evaluations=dict(quick=3000, thorough=150000),
 )
+def _c04_fuzz_args(runs, with_seeds=True):
+    a = ["--out={out}", "-seed={seed}", "-runs=%d" % runs, "-max_len=65536", "-len_control=0", "-timeout=25", "-rss_limit_mb=4096",
+         "-print_final_stats=1", "-artifact_prefix={out}/", "{out}/corpus"]
+    if with_seeds:
+        a.append("{scratch}/c04seeds")
+    return a
+
+
+PROPS["C04"] = dict(
+    title="No input file can make the reader memory-unsafe, hang or leak",
+    level="exploration",
+    design_ref="DESIGN.md section 8, C04",
+    level_text=("Generated-input search under ASan/UBSan(memory subset): (1) rapidcheck - a valid file from the independent reference writer (all codecs, dictionary and plain pages, "
+                "nested schemas, several pages and row groups) receives 1..3 structure-aware mutations: any integer of the footer or of a page header set to a boundary value "
+                "(0, +-1, INT32/INT64 extremes, file size +-1, a neighbouring field's value, ...) through the reference Thrift DOM with all offsets kept consistent, fields dropped, "
+                "lists emptied / shortened / duplicated, binaries emptied or grown, wire types changed, level-length prefixes and dictionary bit widths overwritten, 32-bit words "
+                "in page bodies set to boundary values, footer length / magic variants, truncation, unknown fields nested up to 250 000 deep, raw bit flips; (2) libFuzzer on whole "
+                "files seeded with such files. Every input is opened in a generated I/O mode and driven through a generated script of valid API calls (metadata getters, every "
+                "schema node through every accessor, get_column with in- and out-of-range indices, read_batch / skip into exact-size heap buffers sized from the schema node, "
+                "statistics, predicate pushdown, batch reader). Oracle: no sanitizer report; failing calls fill the error struct (non-OK code, NUL-terminated message); "
+                "out-of-range indices are errors; returned counts never exceed the request; byte-array results are dereferenced; live heap bytes after close equal those before "
+                "open; no case uses more than 20 s of CPU. Shows the property on everything explored; cannot establish absence of a counterexample."),
+    level_note="libFuzzer campaigns are only approximately reproducible from the seed (the saved artifact is the reproducible unit); the rapidcheck engine is exactly reproducible",
+    technique="property-based testing with structure-aware file mutation through an independent Thrift DOM (rapidcheck) plus coverage-guided fuzzing of whole files (libFuzzer), API-script driver with contract oracle under ASan/UBSan",
+    rule=("evaluations count (file, mode, script) runs. Non-trivial: the file carries at least one structural mutation (footer / page header / page body / nesting) or it opened "
+          "successfully (page-level code was reachable); fuzz engine: the file opened. Distinct by FNV-1a-64 of the case / input."),
+    assumptions=["columns whose schema node gives no usable value size (type length <= 0 or > 1 MiB) are not read: a caller cannot size a buffer for them",
+                 "allocation requests above 1 GiB fail (allocator_may_return_null) instead of invoking the OOM killer"],
+    engines=[pbt("c04_hostile", libs=["rapidcheck", "snappy", "lz4"], quick=dict(cases=500, size=100, procs=8), thorough=dict(cases=10000, size=100, procs=16),
+                 asan_extra="max_allocation_size_mb=1024:max_malloc_fill_size=268435456:malloc_fill_byte=190"),
+             fuzz("c04_fuzz", libs=["rapidcheck"], name="c04_fuzz_seeded", asan_extra="quarantine_size_mb=64:max_allocation_size_mb=1024:max_malloc_fill_size=268435456:malloc_fill_byte=190",
+                  prepare=[dict(engine="c04_hostile", args=["--emit", "{scratch}/c04seeds", "800", "{seed}"], mkdirs=["{scratch}/c04seeds"])],
+                  quick=dict(procs=6, args=_c04_fuzz_args(30000), timeout=900), thorough=dict(procs=12, args=_c04_fuzz_args(1200000), timeout=7200))],
+    min_evaluations=dict(quick=100000, thorough=8000000),
+)
+
 PROPS["C05"] = dict(
     title="Every file the writer reports complete is structurally valid Parquet",
     level="exploration",
